@@ -13,7 +13,7 @@ from oracle import c05ref as ref  # noqa: E402
 from translate import c05gen  # noqa: E402
 
 ENTRY = "DriverC05.lean"
-LEAN_TARGETS = ["QuriVerif.Props.C05", "QuriVerif.Props.C05Lift", "QuriVerif.Driver.C05"]
+LEAN_TARGETS = ["QuriVerif.Props.C05", "QuriVerif.Props.C05Lift", "QuriVerif.Props.C05LiftTable", "QuriVerif.Driver.C05"]
 LEAN_TARGETS_THOROUGH = ["QuriVerif.Props.C05Deep"]
 
 TRUSTED = [
@@ -2525,12 +2525,12 @@ def run(ctx: Ctx, replay=None) -> int:
     ]
     gen(ctx)
     deep = [] if ctx.quick() else LEAN_TARGETS_THOROUGH
-    lift = ["QuriVerif.Props.C05Lift"]
+    lift = ["QuriVerif.Props.C05Lift", "QuriVerif.Props.C05LiftTable"]
     ok = ctx.prove(PROP_MODULES + lift + deep + ["QuriVerif.Driver.C05"], OBL_MODULES + lift + deep)
     if ok:
         names = [f"QV.Props.C05.{n}" for _, n, _ in ctx.count_obligations(["QuriVerif.Props.C05"])]
         names += [f"QV.Props.C05Deep.{n}" for m in deep for _, n, _ in ctx.count_obligations([m])]
-        names += [f"QV.Props.C05Lift.{n}" for _, n, _ in ctx.count_obligations(lift)]
+        names += [f"QV.Props.C05Lift.{n}" for _, n, _ in ctx.count_obligations(lift)]  # both files share the namespace
         ctx.audit(names, PROP_MODULES + lift + deep)
     with ctx.timed("witness_replay"):
         replay_isub_witness(ctx)
